@@ -46,6 +46,7 @@ LOCALES = [
     {"LC_ALL": "POSIX", "LANG": "POSIX", "PYTHONCOERCECLOCALE": "0", "PYTHONUTF8": "0"},
     {"LC_ALL": "C", "LANG": "C", "PYTHONUTF8": "1"},
     {"LC_ALL": "C.UTF-8", "LANG": "en_US.UTF-8"},
+    {"LC_ALL": "C.UTF-8", "LANG": "C.UTF-8", "PYTHONOPTIMIZE": "1"},  # python -O: assert statements compiled out
 ]
 
 
